@@ -126,7 +126,7 @@ func (h *H) tellBlocking() {
 			min := time.Duration(75*((1<<limit)-1)) * time.Millisecond
 			if d >= min/2 {
 				h.o.Monitor("c14-tell-blocks", lib.L(lib.S("tell-unreachable"), lib.NI(limit)),
-					fmt.Sprintf("Tell to an unreachable peer with ReconnectLimit=%d returned after %.0f ms (sum of back-offs ~%d ms); 60 ms into the call the calling goroutine was parked in time.Sleep <- ExponentialBackoff.Try <- remoting.(*Mailbox).Enqueue; an actor doing that Tell handled its next mailbox message %.0f ms later",
+					fmt.Sprintf("Tell blocked the caller: peer unreachable (dial refused), ReconnectLimit=%d, Tell returned after %.0f ms (sum of back-offs ~%d ms); 60 ms into the call the calling goroutine was parked in time.Sleep <- ExponentialBackoff.Try <- remoting.(*Mailbox).Enqueue; an actor doing that Tell handled its next mailbox message %.0f ms later",
 						limit, d.Seconds()*1000, 100*((1<<limit)-1), actorStall.Seconds()*1000))
 			}
 		}
@@ -222,7 +222,7 @@ func (h *H) overlap(A, B *Node) {
 	}
 	if !sorted {
 		h.o.Monitor("c14-reorder-across-connections", lib.L(lib.S("overlap"), lib.NI(int(heldBytes))),
-			fmt.Sprintf("A sent seq 1..%d in order; %d bytes (complete frames) of the first connection were still in flight when A's side was reset; A continued on a new connection; B's actor received %v: the old connection's frames after newer ones", seq, heldBytes, order))
+			fmt.Sprintf("old connection's frames delivered after its successor's: A sent seq 1..%d in order; %d bytes (complete frames) of the first connection were still in flight when A's side was reset; A continued on a new connection; B's actor received %v", seq, heldBytes, order))
 	}
 	B.Proxy.SetPlan(func(int) Plan { return defaultPlan() })
 }
@@ -510,6 +510,11 @@ func (h *H) cutAt(A, B *Node, k int64, frameLen func(*XMsg) int, sizes []int) {
 	// the reset reaches the sender
 	waitUntil(200*time.Millisecond, func() bool { return c.WasCut() })
 	time.Sleep(500 * time.Microsecond)
+	// the complete frames that made it through the old connection are handled by its reader before the flush
+	// goes out on a new connection (no overlap of the two connections at the receiver: see overlap())
+	rec, _ := c.Record()
+	nfull := len(splitFrames(rec[sc.start:]))
+	waitUntil(2*time.Second, func() bool { return B.Rec.Len()-sc.m.rec >= nfull })
 	if !sc.flush(h, 12) {
 		h.o.Monitor("c14-no-recovery", lib.L(lib.S("cut"), lib.N(uint64(k))), fmt.Sprintf("%s: after the cut none of 12 further Tells (40 ms apart) was delivered although the peer is reachable", sc.name))
 	}
